@@ -14,7 +14,7 @@ RULE = (
     "Non-trivial = at least one notification was stale/duplicated/reordered or a terminator occurred; distinct = distinct tuples of (path, consumer, value-order pattern, gap classes, terminator, position)"
 )
 ASSUMPTIONS = ["one-way latency 1 ms; datagrams with gap 0 are delivered back-to-back in one event-loop iteration", "OBSERVATION_RESET_TIME is 128 s (default tuning)"]
-REQUIRED_MONITORS = {"freshness_order": 800, "nothing_fresher_left": 300, "terminal_signal": 800, "after_end_wire": 200, "time_clause_exercised": 20, "clock_consulted": 1}
+REQUIRED_MONITORS = {"late_consumer": 100, "freshness_order": 800, "nothing_fresher_left": 300, "terminal_signal": 800, "after_end_wire": 200, "time_clause_exercised": 20, "clock_consulted": 1}
 EXHAUSTIVE = {"permutations": "all orders of each base value set (length <= 5) for every consumer/path"}
 
 VALUE_SETS = [
@@ -100,6 +100,12 @@ def run_script(sc, seed, rep, case):
     from aiocoap import error
 
     box = {}
+    if "late" not in sc:
+        # a second consumer that attaches later: right after the first response was awaited (the usual pattern with
+        # `await rq.response` followed by `async for`), somewhere during the script, or after everything happened
+        lr = random.Random(seed * 2654435761 % 2**32)
+        sc["late"] = lr.choice([None, ("after-response", "iter"), ("after-response", "cb"), ("mid", "iter"), ("mid", "cb"), ("after-all", "iter"), ("after-all", "cb")])
+        sc["late_frac"] = lr.random()
 
     async def main(loop):
         net = simnet.SimNet(loop)
@@ -170,11 +176,45 @@ def run_script(sc, seed, rep, case):
             first = ("response", bytes(resp.payload).decode(), resp.opt.observe)
         except Exception as e:
             first = ("exception", type(e).__name__, None)
-        await asyncio.sleep(state.get("t_total", 1.0) + 50.0)
+        late_delivered, late_terminal, late_task, late_attached = [], [], [None], []
+
+        def attach_late():
+            late_attached.append(loop.time())
+            try:
+                if sc["late"][1] == "cb":
+                    rq.observation.register_callback(lambda m: late_delivered.append((loop.time(), bytes(m.payload).decode(), m.opt.observe)))
+                    rq.observation.register_errback(lambda e: late_terminal.append((loop.time(), type(e).__name__, e)))
+                else:
+
+                    async def consume_late():
+                        try:
+                            async for m in rq.observation:
+                                late_delivered.append((loop.time(), bytes(m.payload).decode(), m.opt.observe))
+                            late_terminal.append((loop.time(), "StopAsyncIteration", None))
+                        except asyncio.CancelledError:
+                            raise
+                        except Exception as e:
+                            late_terminal.append((loop.time(), type(e).__name__, e))
+
+                    late_task[0] = asyncio.ensure_future(consume_late())
+            except Exception as e:  # attaching itself failed
+                late_terminal.append((loop.time(), "attach:" + type(e).__name__, e))
+
+        total = state.get("t_total", 1.0)
+        if sc["late"] is not None:
+            if sc["late"][0] == "after-response":
+                attach_late()
+            elif sc["late"][0] == "mid":
+                loop.call_later(sc["late_frac"] * (total + 2.0), attach_late)
+            else:
+                loop.call_later(total + 10.0, attach_late)
+        await asyncio.sleep(total + 50.0)
         calls_before = vloop.time_calls
-        box.update(net=net, C=C, P=P, sends=sends, delivered=list(delivered), terminal=list(terminal), first=first, token=state["token"])
+        box.update(net=net, C=C, P=P, sends=sends, delivered=list(delivered), terminal=list(terminal), first=first, token=state["token"], late_delivered=list(late_delivered), late_terminal=list(late_terminal), late_attached=list(late_attached))
         if consumer_task is not None and not consumer_task.done():
             consumer_task.cancel()
+        if late_task[0] is not None and not late_task[0].done():
+            late_task[0].cancel()
         await cli.shutdown()
         return True
 
@@ -244,6 +284,7 @@ def judge(sc, box, res, rep, case):
             rep.violation("delivery-out-of-arrival-order", "deliveries are not a subsequence of the arrivals (reordered or delivered twice)", wit(item=ident), case)
             return
         pos = p
+    gids_all = []
     if sc["first"] is not None:
         # reference chain G: greedy application of the section 3.4 predicate to the arrivals (each accepted one
         # becomes the new reference). Deliveries must be a subsequence of G; a lossy consumer may skip members.
@@ -262,6 +303,7 @@ def judge(sc, box, res, rep, case):
             rep.monitor("time_clause_exercised")
         gi = -1
         gids = [g["id"] for g in G]
+        gids_all = gids
         gpos = {}
         for k, a in enumerate(live):
             gpos.setdefault(id(a), k)
@@ -322,6 +364,44 @@ def judge(sc, box, res, rep, case):
         if any(t > t_end + 1e-9 for t, _, _ in box["delivered"]):
             rep.violation("delivered-after-terminal-signal", "a notification was delivered after the end had been signalled", wit(), case)
             return
+    # ---- the consumer that attached late ----
+    if sc.get("late") is not None and box.get("late_attached"):
+        rep.monitor("late_consumer")
+        lterm = box["late_terminal"]
+        lkey = "%s-%s-%s" % (sc["path"], sc["late"][0], sc["late"][1])
+        lwit = lambda **kw: wit(late=sc["late"], late_attached=box["late_attached"], late_delivered=[(round(t, 6), i, v) for t, i, v in box["late_delivered"]], late_terminal=[(round(t, 6), n) for t, n, _ in lterm], **kw)
+        if end_kind is None:
+            if lterm:
+                rep.violation("late-consumer/spurious-terminal-signal/" + lkey, "a consumer that attached later was signalled an end although nothing ended the observation", lwit(), case)
+                return
+        else:
+            if len(lterm) != 1:
+                rep.violation("late-consumer/terminal-signals-%d/%s/%s" % (len(lterm), end_kind, lkey), "the observation's end was signalled %d times instead of exactly once to a consumer that attached later" % len(lterm), lwit(), case)
+                return
+            n = lterm[0][1]
+            want = {"not-observable": ("NotObservable", "StopAsyncIteration"), "final": ("ObservationCancelled", "StopAsyncIteration"), "icmp": ("NetworkError",)}[end_kind]
+            ok = n in want
+            if end_kind == "icmp":
+                from aiocoap import error
+
+                ok = isinstance(lterm[0][2], error.NetworkError)
+            if sc["late"][1] == "cb" and n == "StopAsyncIteration":
+                ok = False
+            if not ok:
+                rep.violation("late-consumer/wrong-terminal-kind/%s/%s" % (end_kind, lkey), "a consumer that attached later saw the observation end with %s; expected %s" % (n, "/".join(want)), lwit(), case)
+                return
+            if any(t > lterm[0][0] + 1e-9 for t, _, _ in box["late_delivered"]):
+                rep.violation("late-consumer/delivered-after-terminal-signal", "a notification was delivered to a late consumer after the end had been signalled to it", lwit(), case)
+                return
+        # what it was handed is a freshness-ordered subsequence of the arrivals, too
+        allowed = ["first"] + (gids_all if sc["first"] is not None else []) + ["final"]
+        p = -1
+        for _, ident, _v in box["late_delivered"]:
+            if ident in allowed[p + 1 :] and ident in ids:
+                p = allowed.index(ident, p + 1)
+            else:
+                rep.violation("late-consumer/stale-or-unknown-delivery", "a consumer that attached later was handed something that is not a freshness-ordered subsequence of the arrivals before the end", lwit(item=ident), case)
+                return
     # ---- wire: notifications after the end are rejected like unknown responses ----
     if end_idx is not None:
         rep.monitor("after_end_wire")
